@@ -59,6 +59,19 @@ def run_case(case, ctx):
         if "error" in obs:
             ctx.fail("worker-error", error=obs["error"], grammar=spec.get("text") or spec.get("files"))
         ctx.label("grammars")
+        for key, o in obs.items():
+            sec = o.get("second_construction") if isinstance(o, dict) else None
+            if sec is not None:
+                ctx.label("second construction from the cached table compared")
+                if "table" in o:      # the first construction succeeded
+                    same = "raises" not in sec and sec.get("table") == o["table"] and \
+                        sec.get("conflicts") == o["conflicts"]
+                else:                 # it reported conflicts
+                    same = "raises" in sec and sec.get("conflicts") == o["conflicts"]
+                if not same:
+                    ctx.fail("cached-table-means-something-else-in-the-next-construction", parser=key,
+                             first=json.dumps(o)[:300], second=json.dumps(sec)[:300],
+                             grammar=spec.get("text") or spec.get("files"))
         glr = obs.get("GLR/LALR", {})
         multi = bool(glr.get("conflicts"))
         amb = any(isinstance(x, int) and x >= 2 for x in glr.get("forest_sizes", []))
@@ -135,8 +148,40 @@ def strat(tier):
     return batches()
 
 
+# heavily ambiguous nullable grammars over one terminal: the GLR driver revisits heads, pushes a new link
+# through several already processed heads of one frontier and merges alternatives - every place where the
+# order of a set or dict of heads could leak into the order of the forest
+NA_S = [["A"], ["a"], ["a", "A", "S"], ["A", "S"], ["S", "A"], ["S", "S"], ["a", "S"], ["S", "a"], ["A", "a", "A"],
+        ["A", "A"], ["a", "A"], ["A", "S", "A"]]
+NA_A = [["a", "A"], ["A", "a"], ["a"], ["S"], ["A", "A"], ["a", "S", "a"], ["S", "a"]]
+
+
+@st.composite
+def nullable_ambiguous_spec(draw):
+    # one alternative without S keeps S productive
+    s_alts = [draw(st.sampled_from([x for x in NA_S if "S" not in x]))]
+    s_alts += draw(st.lists(st.sampled_from([x for x in NA_S if x != s_alts[0]]), min_size=1, max_size=2,
+                            unique_by=tuple))
+    s_alts = draw(st.permutations(s_alts))
+    a_alts = draw(st.lists(st.sampled_from(NA_A), min_size=1, max_size=2, unique_by=tuple))
+    text = "S: %s;\nA: %s | EMPTY;\nterminals\na: 'a';\n" % (
+        " | ".join(" ".join(x) for x in s_alts), " | ".join(" ".join(x) for x in a_alts))
+    return {"text": text, "inputs": ["a", "a a", "a a a", "a a a a"], "only": ["GLR/LALR", "GLR/SLR"]}
+
+
+@st.composite
+def na_batches(draw):
+    return {"batch": [draw(nullable_ambiguous_spec()) for _ in range(12)]}
+
+
+def strat_na(tier):
+    return na_batches()
+
+
 SUBCHECKS = [
     SubCheck("hash-seed-batches", run_case, strategy=strat, examples={"quick": 48, "thorough": 400},
+             case_timeout=900),
+    SubCheck("hash-seed-nullable-ambiguous", run_case, strategy=strat_na, examples={"quick": 32, "thorough": 300},
              case_timeout=900),
 ]
 
